@@ -33,7 +33,9 @@ Goto(t, l) == pc' = [pc EXCEPT ![t] = l] /\ UNCHANGED <<ret, call, rets>>
 
 Begin(t) == /\ pc[t] = "idle" /\ calls[t] # <<>>
             /\ call' = [call EXCEPT ![t] = Head(calls[t])] /\ calls' = [calls EXCEPT ![t] = Tail(calls[t])]
-            /\ pc' = [pc EXCEPT ![t] = IF Head(calls[t]) = "start" THEN "s_cas" ELSE IF Head(calls[t]) = "stop" THEN "c_state" ELSE "a_state"]
+            \* (a line step is an executor call like start: it acquires the VM, executes, polls the requests and releases;
+            \*  where it halts by itself is the business of Control.tla, not of this model)
+            /\ pc' = [pc EXCEPT ![t] = IF Head(calls[t]) \in {"start", "line_step"} THEN "s_cas" ELSE IF Head(calls[t]) = "stop" THEN "c_state" ELSE "a_state"]
             /\ UNCHANGED <<state, exitReq, atomic, loaded, work, res, ret, grants, runid, afterStop, rets>>
 
 Step(t) ==
